@@ -15,6 +15,15 @@ instance : Hasher H256 := ⟨sha512_256_pair, H256.zero⟩
 
 abbrev F := Spec.Forest H256
 
+/-- what the driver remembers about an applied block -/
+structure BlockInfo where
+  dels : List H256
+  adds : List H256
+  /-- leaf count before the block -/
+  prevN : Nat
+  /-- the block's additions overwrote at least one empty root (`UpdateData.ToDestroy ≠ ∅`) -/
+  destroyed : Bool
+
 structure St where
   forest : F := ⟨[]⟩
   stack : List F := []
@@ -31,7 +40,9 @@ structure St where
   samples : HashMap String String := {}
   parseErrors : Nat := 0
   /-- (dels, adds) of every applied block, newest first (parallel to `stack`) -/
-  blocks : List (List H256 × List H256) := []
+  blocks : List BlockInfo := []
+  /-- the block removed by the latest `undo` line -/
+  lastUndone : Option BlockInfo := none
   /-- the leaves a light client's cached proof is expected to hold (C07/C08) -/
   cache : List H256 := []
   /-- free-form per-family state (used by later families) -/
